@@ -80,8 +80,9 @@ struct RespInfo {
 	bool has_error = false; uint64_t err_status = 0;
 	bool has_conf = false; ConfVals conf;
 	bool has_chains = false; std::string first_input; bool has_cal = false;
-	uint64_t cal_pub = 0, cal_agg = 0; std::string cal_input;
+	uint64_t cal_pub = 0, cal_agg = 0; std::string cal_input; bool cal_shape_ok = false;
 	std::string payload_digest;   // digest of the response payload TLV (content identity)
+	std::vector<std::string> chain_encs; std::string cal_enc; // encoded 0x0801 / 0x0802 elements of the response
 	bool authentic(int cfg_alg) const { return framed && known_tag && has_header && has_mac && mac_ok && mac_alg == cfg_alg; }
 };
 bool classify_response(const std::string &pdu, const std::string &key, RespInfo &r);
@@ -112,7 +113,7 @@ struct World {
 	// signature bytes (0x0800) for a request, as the SDK should assemble them from an honest reply
 	std::string make_signature(const std::string &hash, uint64_t level, uint64_t subseed, bool with_cal, ReplyMeta &meta, int nchains = 0);
 private:
-	std::vector<AggChain> build_chains(const std::string &hash, uint64_t level, uint64_t t, uint64_t subseed, int behav, std::string &root, int &root_level, int nchains = 0);
+	std::vector<AggChain> build_chains(const std::string &hash, uint64_t level, uint64_t t, uint64_t subseed, int behav, std::string &root, int &root_level, int nchains = 0, int start_level = 0);
 };
 
 Tlv conf_tlv(unsigned tag, const ConfVals &cv, bool extender);
